@@ -11,9 +11,15 @@ ToSet(s) == {s[i] : i \in 1..Len(s)}
 Ev == Trace[l]
 IsEvent(e) == l <= Len(Trace) /\ Trace[l].op = e /\ l' = l + 1
 
+\* "Suggestion without allocation has no effect on later results": the driver replays every history a
+\* second time with the suggest operations erased and logs, next to each reply, the reply the erased
+\* history gave at the same position (field <f>_erased).  The two must be equal.
+Same(f) == (f \o "_erased") \in DOMAIN Ev => Ev[f] = Ev[f \o "_erased"]
+NoEffect == Same("res") /\ Same("quals") /\ Same("visible") /\ Same("found") /\ Same("nil")
+
 TraceInit == visible = {} /\ imp = << >> /\ inpkg = FALSE /\ dst = "" /\ l = 1
 
-TraceNext ==
+TraceStep ==
   \/ IsEvent("reset")    /\ CReset(Ev.inpkg, Ev.dst, ToSet(Ev.visible))
   \/ IsEvent("add")      /\ CAddName(Ev.name)
   \/ IsEvent("exists")   /\ CNameExists(Ev.name, Ev.res)
@@ -24,6 +30,8 @@ TraceNext ==
   \/ IsEvent("qual")     /\ CPkgQualifier(Ev.path, Ev.found, Ev.res)
   \/ IsEvent("newscope") /\ CNewScope(ToSet(Ev.visible))
   \* a "panic" event matches no action: the trace is rejected there
+
+TraceNext == (l <= Len(Trace) => NoEffect) /\ TraceStep
 
 TraceSpec == TraceInit /\ [][TraceNext]_tvars
 
